@@ -214,6 +214,16 @@ def fragment_patterns():
     P.append(("mutual, top-level spread then top-level inline fragment", Doc([
         FragDef("A", "I", [TN(), Spread("B")]), FragDef("B", "I", [TN(), Field("id"), Inline("R", [Field("inode", [Spread("A")])])]),
         Op("query", "Op", [Field("i", [Spread("A")])])])))
+    # the recursive spread next to other selections of every kind (a list-typed object field before / after it, a
+    # scalar, another spread): whether the spread is boxed must not depend on its siblings
+    P.append(("self, a list-typed sibling before the spread", q([FragDef("F", "R", [Field("id"), Field("next", [Field("list", [Field("id")]), Spread("F")])])])))
+    P.append(("self, a list-typed sibling after the spread", q([FragDef("F", "R", [Field("id"), Field("next", [Spread("F"), Field("list", [Field("id")])])])])))
+    P.append(("self, nullable-object sibling before the spread", q([FragDef("F", "R", [Field("id"), Field("nn", [Field("other", [Field("id")]), Spread("F")])])])))
+    P.append(("self behind a list, non-list sibling before the spread", q([FragDef("F", "R", [Field("id"), Field("list", [Field("next", [Field("id")]), Spread("F")])])])))
+    P.append(("self in a variant, list sibling before the spread", q([FragDef("F", "R", [Field("id"), Field("inode", [TN(), Inline("R", [Field("list", [Field("id")]), Spread("F")])])])])))
+    P.append(("self, list sibling at the fragment's top level before the recursive field", q([FragDef("F", "R", [Field("list", [Field("id")]), Field("next", [Field("id"), Spread("F")])])])))
+    P.append(("mutual, list siblings before both spreads", q([FragDef("F", "R", [Field("id"), Field("next", [Field("list", [Field("id")]), Spread("G")])]),
+                                                            FragDef("G", "R", [Field("id"), Field("other", [Field("list", [Field("id")]), Spread("F")])])])))
     P.append(("non-recursive control", q([FragDef("F", "R", [Field("id"), Field("next", [Spread("G")])]),
                                            FragDef("G", "R", [Field("id")])])))
     return P
